@@ -105,6 +105,7 @@ pub fn generate(rng: &mut Rng) -> NetScenario {
         stop_at_ns: None,
         stop_before: false,
         yields_before_stop: 0,
+        relisten: false,
         cap_ns: secs(200),
     }
 }
